@@ -3,15 +3,22 @@
 
 Obligations: coq/Props/C07.v (model Model/Collator.v, spec Spec/OrderSpec.v).
 
-Check = (a) correspondence: the model of the collators (faithful to the code, defects
-included) is run in Coq on the raw response + transforms and compared with
-row_order()/column_order() in both formats, row/column codes and labels, payload_order,
-shape, is_empty of slices and strands;  (b) oracles for the property text on the
-implementation: the 'ins_N' rendering must name the same sequence as the signed one, and
-id-less insertions must be numbered as the specification says (rank in payload display
-order / definition position) - the specification values are computed in Coq from
+Check = (a) correspondence: the model of the collators (faithful to the code) is run in
+Coq on the raw response + transforms and compared with row_order()/column_order() in both
+formats, row/column codes and labels, payload_order, shape, is_empty of slices and
+strands;  (b) oracles for the property text on the implementation, with NO exception
+class: the 'ins_N' rendering must name the same sequence as the signed one, and id-less
+insertions must be numbered as the specification says (rank in payload display order /
+definition position) - the specification values are computed in Coq from
 Spec/OrderSpec.v.  Theorem C07_collate_eq_spec says the model's signed order IS the
-specification's anchored order, so (a) ties the implementation to the specification.
+specification's anchored order, so (a) ties the implementation to the specification;
+C07_ids_view / C07_renderings_agree_display say the same for the ids and the renderings.
+
+Anchor spellings: every insertion anchor is generated in the spellings Python's int() /
+str.lower() accept or reject - 3, '3', '+3', ' 3', '3 ', ' +3 ', '03', '3_2_767', 'Top',
+'BOTTOM', null, stale and missing ids, ids of hidden elements and (in malformed streams)
+'0x3', '+ 3', '3_', '_3', '3.0', ' top', '' ... - and `py_int_mirror` below (the harness'
+copy of Spec/OrderSpec.v py_int) is compared with the real int() on each generated string.
 """
 import copy
 import itertools
@@ -22,6 +29,139 @@ from harness import core, gen, impl
 from harness.props import order_util as ou
 
 PID = "C07"
+
+
+# ------------------------------------------------------------------------------------
+# anchor spellings
+# ------------------------------------------------------------------------------------
+
+BLANKS = " \t\n\v\f\r"
+
+
+def py_int_mirror(s):
+    """Spec/OrderSpec.v py_int, transcribed: blanks around dropped, optional sign, ASCII digits
+    with single underscores between two digits.  -> int or None"""
+    t = s.strip(BLANKS)
+    if t[:1] in ("+", "-"):
+        sign, t = (-1 if t[0] == "-" else 1), t[1:]
+    else:
+        sign = 1
+    acc, after_digit = 0, False
+    for c in t:
+        if "0" <= c <= "9":
+            acc, after_digit = 10 * acc + (ord(c) - 48), True
+        elif c == "_" and after_digit:
+            after_digit = False
+        else:
+            return None
+    return sign * acc if after_digit else None
+
+
+def real_int(s):
+    try:
+        return int(s)
+    except ValueError:
+        return None
+
+
+def encodable(s):
+    """what harness.core.g_str can hand to Coq (printable ASCII, no double quote)"""
+    return all(32 <= ord(c) < 127 and c != '"' for c in s)
+
+
+def numeric_spellings(rng, z):
+    """spellings of the int z that int() accepts"""
+    a = abs(z)
+    sign = "-" if z < 0 else ""
+    body = str(a)
+    out = [str(z), " %s" % z, "%s " % z, "  %s  " % z, "%s0%s" % (sign, body), "%s00%s" % (sign, body)]
+    if z >= 0:
+        out += ["+%s" % body, " +%s " % body, "+0%s" % body]
+    if len(body) > 1:
+        k = rng.randint(1, len(body) - 1)
+        out.append("%s%s_%s" % (sign, body[:k], body[k:]))
+        out.append(sign + "_".join(body))
+    else:
+        out.append("%s0_%s" % (sign, body))
+    return out
+
+
+# strings int() rejects and that are no top / bottom either: the collator raises ValueError
+BAD_SPELLINGS = ["0x3", "+ 3", "- 3", "3_", "_3", "1__0", "+_1", "3.0", "1e3", "--3", "+-3", "", " ",
+                 "+", "-", " top", "top ", "Bottom.", "3 3", "after"]
+
+
+def g_ascii_string(s):
+    """Gallina string literal for ANY 7-bit string (core.g_str only takes printable ones)"""
+    if encodable(s):
+        return core.g_str(s)
+    t = "EmptyString"
+    for c in reversed(s):
+        assert ord(c) < 128, s
+        t = "(String (Ascii.ascii_of_nat %d) %s)" % (ord(c), t)
+    return t
+
+
+PROBE_STRINGS = (
+    [x for z in (3, 0, -1, 10, 32767, -250) for x in numeric_spellings(random.Random(z), z)]
+    + BAD_SPELLINGS
+    + ["\t3", "3\n", "\v3\f", "\r-3\r\n", " \t+3 \t", "3\t3", "\x1c3", "3\x1f", "3\x00", "\x7f3",
+       "1_0", "1_0_0", "0_0", "00", "-0", "+0", "- 0", "9" * 25, "-" + "9" * 25, "0x", "0b1", "0o7", "١",
+       "Top", "TOP", "tOp", "BOTTOM", "Bottom", "bottom", "top", "None", "none", "True", "A-Z[]^_`a-z{}@",
+       "AZaz09", "\t"])
+
+
+def spelling_probe_term(strings):
+    """int(s) and s.lower() as the model computes them, for each (7-bit) string"""
+    return ("flat_map (fun s => (match py_int s with Some z => [1; z] | None => [0] end) "
+            "++ Collator.r_string (lower s)) %s"
+            % core.g_list([g_ascii_string(x) for x in strings]))
+
+
+def check_spelling_probe(rep, strings, toks):
+    """the model's int() / lower() against Python's own on every string"""
+    d = ou.ODec(toks)
+    bad = []
+    for x in strings:
+        mi = d.Z() if d.Z() == 1 else None
+        ml = d.string()
+        if mi != real_int(x) or ml != x.lower() or py_int_mirror(x) != real_int(x):
+            bad.append({"string": x, "model_int": mi, "python_int": real_int(x), "model_lower": ml,
+                        "mirror_int": py_int_mirror(x)})
+    assert d.done(), "trailing tokens"
+    rep.cov["spellings_probed"] = len(strings)
+    for b in bad[:5]:
+        rep.violation("model-string-semantics", {"strings": [b["string"]]}, b, {"what": "py_int_lower"})
+
+
+def case_anchor_strings(case):
+    out = []
+    lists = [t.get("insertions") or [] for t in case["transforms"].values() if isinstance(t, dict)]
+    for dd in case["response"]["result"]["dimensions"]:
+        lists.append(((dd.get("references", {}).get("view") or {}).get("transform", {})
+                      .get("insertions", [])))
+    for l in lists:
+        for d in l:
+            if isinstance(d, dict) and isinstance(d.get("anchor"), str):
+                out.append(d["anchor"])
+    return out
+
+
+def respell_anchors(rng, insertions, malformed):
+    """Re-write anchors of the insertion dicts into other spellings of the same meaning (int ->
+    numeric string in every form int() accepts; top / bottom -> other letter cases) and, in a
+    malformed stream only, into strings that mean nothing (the display raises ValueError)."""
+    for d in insertions:
+        if not isinstance(d, dict) or "anchor" not in d:
+            continue
+        a = d["anchor"]
+        r = rng.random()
+        if isinstance(a, int) and not isinstance(a, bool) and r < 0.35:
+            d["anchor"] = rng.choice(numeric_spellings(rng, a))
+        elif isinstance(a, str) and a.lower() in ("top", "bottom") and r < 0.3:
+            d["anchor"] = "".join(c.upper() if rng.random() < 0.5 else c.lower() for c in a)
+        elif malformed and r > 0.9:
+            d["anchor"] = rng.choice(BAD_SPELLINGS)
 
 
 # ------------------------------------------------------------------------------------
@@ -43,8 +183,11 @@ def cat_dim_transforms(rng, v, malformed=False, allow_tins=True, strand=False):
                   and hides.get(i, hides.get(str(i), {})).get("hide") is True]
     if rng.random() < 0.7:
         v.view_insertions = ou.random_insertion_list(rng, v, hidden_ids, malformed=malformed)
+        respell_anchors(rng, v.view_insertions, malformed)
     if allow_tins and rng.random() < 0.4:
         t["insertions"] = ou.derive_transform_insertions(rng, v.view_insertions or [], v, hidden_ids)
+        if rng.random() < 0.5:
+            respell_anchors(rng, t["insertions"], malformed)
     r = rng.random()
     if r < 0.45:
         t["order"] = {"type": "explicit", "element_ids": ou.random_explicit_ids(rng, valid)}
@@ -157,30 +300,6 @@ def prepare(case):
     return {"obs": obs, "models": ms, "terms": terms}
 
 
-def classify_render(m, dec, axis_obs_bogus, psub_possible):
-    if axis_obs_bogus[0] == "exc" and axis_obs_bogus[1] == "TypeError":
-        return "prune-subtotals-typeerror"
-    if m.tins is not None and m.view and m.order_dict.get("type") != "explicit":
-        return "payload-mapping-uses-view-ids"
-    return "other"
-
-
-CANONICAL_WORDS = ("top", "bottom")
-
-
-def classify_ids(m):
-    src = m.view
-    if all("id" in d for d in src if isinstance(d, dict)):
-        return "other"
-    for d in src:
-        if not isinstance(d, dict):
-            continue
-        a = d.get("anchor")
-        if isinstance(a, str) and a not in CANONICAL_WORDS:
-            return "crosswalk-raw-anchor-spelling"
-    return "other"
-
-
 def oracle_renderings(axis, obs):
     """'ins_N' and signed renderings must name the same sequence (implementation only)."""
     s, b, c = obs[axis + "_order"], obs[axis + "_order_bogus"], obs[axis + "_codes"]
@@ -212,15 +331,14 @@ def check_case(case, prep, results, rep):
         bad = oracle_renderings(axis, obs)
         if bad is not None:
             out.append(("renderings-disagree", axis + ".renderings_agree", bad,
-                        {"what": "renderings_agree",
-                         "cls": classify_render(m, dec, obs[axis + "_order_bogus"], not strand)}))
+                        {"what": "renderings_agree"}))
         # (b2) ids of insertions as the specification numbers them
         if not m.array and spec_ids != [z for z in dec["sub_ids"]]:
             # the model's ids are the implementation's (checked above through the codes)
             out.append(("ids-not-as-specified", axis + ".ids_assigned",
                         {"spec": spec_ids, "impl(model)": dec["sub_ids"],
                          "insertions": m.source_list()},
-                        {"what": "ids_assigned", "cls": classify_ids(m)}))
+                        {"what": "ids_assigned"}))
     # shape / is_empty
     if all(s[0] == "ok" for s in shape):
         want = ("ok", [s[1] for s in shape])
@@ -251,7 +369,8 @@ def features(case, prep):
             if isinstance(d, dict):
                 a = d.get("anchor")
                 f.append("anchor:" + ("none" if a is None else "int" if isinstance(a, int)
-                                      else "numstr" if a.lstrip("+-").isdigit()
+                                      else ("numstr" if a.lstrip("+-").isdigit() else "numstr-blank/_/0")
+                                      if py_int_mirror(a) is not None
                                       else a.lower() if a.lower() in ("top", "bottom") else "other"))
                 f.append("ins-with-id" if "id" in d else "ins-without-id")
     return sorted(set(f))
@@ -262,14 +381,24 @@ def _replayable(case):
             "strand": case["strand"], "k": case.get("k")}
 
 
-def run_cases(rep, cases):
+def run_cases(rep, cases, probe=False):
     preps, terms = [], []
     for case in cases:
         p = prepare(case)
         preps.append(p)
         if isinstance(p, dict):
             terms.extend(p["terms"])
+    probe_strings = []
+    if probe:
+        seen = set()
+        for x in PROBE_STRINGS + [a for case in cases for a in case_anchor_strings(case)]:
+            if x not in seen and all(ord(c) < 128 for c in x):
+                seen.add(x)
+                probe_strings.append(x)
+        terms = terms + [spelling_probe_term(probe_strings)]
     results, coq_s = core.run_coq_cases(PID, ou.IMPORTS, terms) if terms else ([], 0.0)
+    if probe:
+        check_spelling_probe(rep, probe_strings, results[-1])
     pos = 0
     for case, p in zip(cases, preps):
         if not isinstance(p, dict):
@@ -302,7 +431,7 @@ def run_cases(rep, cases):
 def small_scope_cases(rng, limit):
     """All configurations of a 3-category dimension (ids 1,2,5 + a missing 9) with up to two
     view insertions over a fixed anchor alphabet, a few explicit lists and hidden sets."""
-    anchors = [1, "2", "top", "Top", "bottom", None, 9, 77, 5]
+    anchors = [1, "2", "top", "Top", "bottom", None, 9, 77, 5, " 1", "+5 "]
     explicit = [None, [5, 1], [2, 2, 77, 1], [5, 2, 1]]
     hidden = [(), (1,), (2, 5)]
     out = []
@@ -336,26 +465,32 @@ def run(tier, seed):
     n_cases = 400 if tier == "quick" else 6000
     rng = random.Random(seed)
     cases = [gen_case(rng, k) for k in range(n_cases)]
-    cases += small_scope_cases(rng, 150 if tier == "quick" else 1944)
-    coq_s, n_terms = run_cases(rep, cases)
+    cases += small_scope_cases(rng, 150 if tier == "quick" else 2904)
+    coq_s, n_terms = run_cases(rep, cases, probe=True)
     rep.cov["rule"] = (
         "cases from random.Random(seed): CAT / MR (with derived before/after/top/bottom items) / CA "
         "dimensions of 0..6 valid elements (ids incl. -1, 0, 32767, missing categories anywhere), "
         "slices and strands; view and/or transform insertion lists with anchors int / numeric "
-        "string / top / Top / BOTTOM / null / stale / missing / hidden-element, with, without or "
-        "partly with ids, hidden copies, malformed entries; explicit orders (permutations, subsets, "
-        "repeats, stale ids, string spellings, null), unknown order types; hide and prune flags; + a "
-        "small-scope enumeration (3 elements x 2 insertions x 9 anchors^2 x 4 explicit lists x 3 "
-        "hidden sets; sampled in quick, exhaustive in thorough). non-trivial = some insertion, "
-        "explicit order, prune or array dimension present; distinct by content hash")
+        "string in every spelling int() accepts ('3', '+3', ' 3', '3 ', '03', '3_2') / top / Top / "
+        "BOTTOM / null / stale / missing / hidden-element and, in malformed streams, strings int() "
+        "rejects ('0x3', '+ 3', '3_', ' top', ''), with, without or partly with ids, hidden copies, "
+        "malformed entries; explicit orders (permutations, subsets, repeats, stale ids, string "
+        "spellings, null), unknown order types; hide and prune flags; + a small-scope enumeration "
+        "(3 elements x 2 insertions x 11 anchors^2 x 4 explicit lists x 3 hidden sets; sampled in "
+        "quick, exhaustive in thorough); + a probe of the model's int() / lower() against Python's "
+        "on every generated anchor string and a fixed list (tabs, newlines, underscores, signs, hex, "
+        "25-digit numbers). non-trivial = some insertion, explicit order, prune or array dimension "
+        "present; distinct by content hash")
     rep.cov["coq_eval_seconds"] = round(coq_s, 2)
     rep.cov["model_terms_evaluated"] = n_terms
     rep.assumptions = [
         "for array (MR/CA subvariable) dimensions the shimmed element ids / order ids / hidden set are "
         "taken from the implementation (identifier translation is owned by C19)",
         "empty-vector indexes are the implementation's own pruning masks (the pruning rule is C09's)",
-        "anchors / ids that are floats or bools, and int() spellings with blanks or underscores, are "
-        "outside the model (not generated)",
+        "anchors / ids that are floats or bools, and anchor strings with non-ASCII characters (int() reads "
+        "non-ASCII digits and blanks, lower() non-ASCII letters) are outside the model (Spec/OrderSpec.v "
+        "py_int / lower are the ASCII semantics) and are not generated; a blank other than the space "
+        "cannot be written in a generated case (harness.core.g_str) and is only covered by the probe",
     ]
     return rep.finish("proof", ob, trusted_base=core.TRUSTED_BASE_COMMON + [
         "Model/Collator.v is hand-written; tied to collator.py, dimension.py (_Subtotals, _Subtotal.anchor, "
